@@ -1390,7 +1390,11 @@ def run_worker(spec: Dict[str, Any], real: bool = False) -> RunResult:
                 labels = dict(s.get("labels", {}))
                 labels["own"] = tok
                 try:
-                    kk = AsyncKicker(s.get("task", "t_async"), broker, labels).with_task_id(tok)
+                    if s.get("via_with_labels"):
+                        # labels given per call, the way applications do it: task.kicker().with_labels(**labels)
+                        kk = AsyncKicker(s.get("task", "t_async"), broker, {}).with_labels(**labels).with_task_id(tok)
+                    else:
+                        kk = AsyncKicker(s.get("task", "t_async"), broker, labels).with_task_id(tok)
                     if s.get("via_broker2") and broker2 is not None:
                         kk = kk.with_broker(broker2)  # the receiving broker's middlewares must run
                     extra = [object()] if s.get("bad_arg") else []  # an argument no serializer can encode
